@@ -995,7 +995,7 @@ func init() { Register(c09{}) }
 func (c09) ID() string { return "C09" }
 func (c09) NRuns(tier string) int {
 	if tier == "thorough" {
-		return 300000
+		return 120000
 	}
 	return 4000
 }
